@@ -727,6 +727,16 @@ func (c *CEnv) evalCall(e *Expr) Val {
 				return Val{t: fmt.Sprintf("(%s %s)", probe.parts[0].t, a.t), typ: probe.parts[0].typ}
 			}
 			return Val{t: fmt.Sprintf("(%s %s)", probe.parts[1].t, a.t), typ: tInt}
+		case "disjoint":
+			// two slices do not share a backing store (or one of them is nil)
+			a, b := c.eval(args[0]), c.eval(args[1])
+			return Val{t: fmt.Sprintf("(or (distinct (s.base %s) (s.base %s)) (= (s.base %s) 0))", a.t, b.t, a.t), typ: tBool}
+		case "runes":
+			// the rune sequence of a string ([]rune(s)) as a pure sequence value
+			a := c.eval(args[0])
+			arr := fmt.Sprintf("(%s %s)", s.uf("runes.of", []string{"String"}, "(Array Int Int)"), a.t)
+			ln := fmt.Sprintf("(%s %s)", s.uf("runes.len", []string{"String"}, "Int"), a.t)
+			return Val{seq: &seqV{arr: arr, off: "0", ln: ln}, typ: types.NewSlice(types.Typ[types.Rune])}
 		case "hasPrefix":
 			a, b := c.eval(args[0]), c.eval(args[1])
 			return Val{t: fmt.Sprintf("(str.prefixof %s %s)", b.t, a.t), typ: tBool}
@@ -826,7 +836,7 @@ func (c *CEnv) applySpec(sf *SpecFunc, args []*Expr) Val {
 		key := ghostRegion(sf.Name, ret)
 		return Val{t: fmt.Sprintf("(select %s %s)", s.region(c.heap, key, s.cellSort(ret)), vals[0].t), typ: ret}
 	}
-	if sf.Def != nil && sf.Def.E != nil {
+	if sf.Def != nil && sf.Def.E != nil && !sf.Opaque {
 		// macro expansion in the current heap
 		if c.depth > 400 {
 			efail("spec func recursion too deep (%s)", sf.Name)
@@ -881,6 +891,9 @@ func (s *Sess) funcEnv(heap, old *State, results []Val) *CEnv {
 	for i, p := range s.fn.Params {
 		c.vars[fmt.Sprintf("$%d", i)] = s.env[p]
 	}
+	if s.fn.Signature.Recv() != nil && len(s.fn.Params) > 0 {
+		c.vars["$recv"] = s.env[s.fn.Params[0]]
+	}
 	sig := s.fn.Signature
 	for i := 0; i < sig.Results().Len(); i++ {
 		c.resNames = append(c.resNames, sig.Results().At(i).Name())
@@ -923,6 +936,30 @@ func (s *Sess) emitAxioms() {
 	}
 	for changed := true; changed; {
 		changed = false
+		// definitional axioms of opaque spec functions in use
+		for _, name := range sortedKeys(s.specUsed) {
+			sf := s.eng.cs.Specs[name]
+			if sf == nil || !sf.Opaque || sf.Def == nil || sf.Def.E == nil || s.axiomDone["def:"+name] {
+				continue
+			}
+			s.axiomDone["def:"+name] = true
+			call := &Expr{Op: "call", Args: []*Expr{{Op: "id", S: name}}}
+			for _, p := range sf.Params {
+				call.Args = append(call.Args, &Expr{Op: "id", S: p.Name})
+			}
+			ax := &Expr{Op: "forall", Vars: sf.Params, Trig: []*Expr{call}, Args: []*Expr{{Op: "bin", S: "<==>", Args: []*Expr{call, sf.Def.E}}}}
+			if sf.Ret != "bool" {
+				ax.Args[0].S = "=="
+			}
+			c := &CEnv{s: s, vars: map[string]Val{}, heap: s.entry, pkg: s.eng.typesPkg(sf.Pkg), imports: s.eng.cs.Imports[sf.File]}
+			f, err := c.evalAssume(ax)
+			if err != nil {
+				s.unsupp("definition of opaque %s: %v", name, err)
+				continue
+			}
+			s.axioms = append(s.axioms, "(assert "+f+") ; definition of "+name)
+			changed = true
+		}
 		for _, l := range s.eng.cs.Lemmas {
 			if s.axiomDone[l.Name] || l.C.E == nil {
 				continue
